@@ -3,7 +3,7 @@
 use crate::util::Witness;
 use sea_query::*;
 
-const PIECES: &[&str] = &["a", " ", "?", "??", "$1", "$2", "$$", "$x", "$tag$", "'q?$1'", "\"i?\"", "=", "1", "?,?", "(", ")", "m[i[1]]", "?OR"];
+const PIECES: &[&str] = &["a", " ", "?", "??", "$1", "$2", "$$", "$x", "$tag$", "'q?$1'", "\"i?\"", "=", "1", "?,?", "(", ")", "m[i[1]]", "?OR", "@>", "#>>"];
 
 /// what the template must render to, by the property's rules, scanning characters (quotes: ' " ` with doubling)
 fn oracle(t: &str, vals: &[String], numbered: bool) -> Option<String> {
@@ -86,9 +86,24 @@ pub fn search(_obl: &str) -> Vec<Witness> {
             }
         }
     }
+    // built SQL that carries a `$` which is NOT a placeholder (from a doubled `$$`, a `$tag$`, plain custom SQL): inject_parameters must leave it alone.
+    // Postgres only: on the `?` backends a literal `?` produced by `??` cannot be told from a placeholder afterwards (documented limit of the escape)
+    let pg_templates: Vec<(&str, SimpleExpr)> = vec![
+        ("$1 $$ $2", Expr::cust_with_values("$1 $$ $2", ["a", "b"])), ("$$draft$$ (no values)", Expr::cust("$$draft$$")), ("$tag$ $1", Expr::cust_with_values("$tag$ $1 $tag$", [7])),
+        ("$1@>$2", Expr::cust_with_values("$1@>$2", ["[1,2]", "[2]"])), ("x $ y", Expr::cust("x $ y")), ("$1::text || '$'", Expr::cust_with_values("$1::text || '$'", [1]))];
+    for (lab, e) in pg_templates {
+        let q = Query::select().expr(e).and_where(Expr::col(Alias::new("k")).eq(5)).to_owned();
+        let (sql, vals) = q.build(PostgresQueryBuilder);
+        let inl = q.to_string(PostgresQueryBuilder);
+        let r = std::panic::catch_unwind(std::panic::AssertUnwindSafe(|| inject_parameters(&sql, vals.0.clone(), &PostgresQueryBuilder)));
+        match r {
+            Ok(s) if s == inl => {}
+            other => { found.push(Witness { property: "C11", input: format!("inject-pg:{lab}"), observed: format!("postgres: inject_parameters({sql:?}) = {other:?}"), expected: inl }); if found.len() >= 6 { return found; } }
+        }
+    }
     found
 }
-pub fn check_one(label: &str) -> Option<Witness> { if label.starts_with("inject:") { search("").into_iter().find(|w| w.input == label) } else {
+pub fn check_one(label: &str) -> Option<Witness> { if label.starts_with("inject:") || label.starts_with("inject-pg:") { search("").into_iter().find(|w| w.input == label) } else {
     std::panic::set_hook(Box::new(|_| {}));
     let t = if label.starts_with("cust_with_") { label.split_once(": ").map(|x| x.1).unwrap_or(label) } else { label };
     check_template(t)
